@@ -1,16 +1,718 @@
-//! Simulated disk below `aranya_libc` (DESIGN 3.4). Built in a later step.
+//! Simulated disk below `aranya_libc` (DESIGN 3.4): page cache vs durable image, pending
+//! writes, crashes with lost / kept / torn sectors, transient errors, and replica restart.
 
-use crate::{
-    policy::SharedLog,
-    replica::{AnyRep, SpillKind},
-    sim::Sim,
+use std::{
+    cell::RefCell,
+    collections::{BTreeMap, BTreeSet},
+    ffi::c_int,
+    rc::Rc,
 };
 
-pub fn new_file_rep(_idx: usize, _log: SharedLog, _spill: SpillKind) -> AnyRep {
-    vcommon::harness_error("file-backed replicas are not built yet");
+use aranya_libc::verif::{Intercept, RawFd, SimSys};
+use aranya_runtime::{
+    CmdId,
+    linear::{LinearStorageProvider, libc::FileManager},
+};
+use vcommon::Rng;
+
+use crate::{
+    oracles::short,
+    policy::SharedLog,
+    replica::{AnyRep, MemSP, Rep, SpillKind},
+    sim::Sim,
+    with_rep,
+};
+
+const FD_BASE: RawFd = 1 << 30;
+const SECTOR: usize = 512;
+const EINTR: c_int = 4;
+const EIO: c_int = 5;
+const EBADF: c_int = 9;
+const EWOULDBLOCK: c_int = 11;
+const EEXIST: c_int = 17;
+const ENOSPC: c_int = 28;
+const ENOENT: c_int = 2;
+const O_CREAT: c_int = 0o100;
+const O_EXCL: c_int = 0o200;
+
+pub const CRASH_PANIC: &str = "simfs: crash";
+
+#[derive(Default, Clone)]
+struct FileState {
+    /// What reads see (page cache). Logical length may exceed `data.len()` (zeros).
+    data: Vec<u8>,
+    len: u64,
+    /// What is guaranteed on disk.
+    durable: Vec<u8>,
+    durable_len: u64,
+    /// Writes since the last successful sync, in order.
+    pending: Vec<(u64, Vec<u8>)>,
+    lock: Option<RawFd>,
+}
+
+#[derive(Clone, Copy)]
+enum Fd {
+    Dir(usize),
+    File { file: usize, rep: usize },
+}
+
+#[derive(Default, Clone, Debug)]
+pub struct FsFaults {
+    pub eintr_pct: u64,
+    pub short_pct: u64,
+    /// Per mille chance that a write/sync fails with EIO / ENOSPC.
+    pub eio_permille: u64,
+    pub enospc_permille: u64,
+}
+
+struct Inner {
+    dirs: BTreeMap<usize, BTreeMap<Vec<u8>, usize>>,
+    files: Vec<FileState>,
+    fds: BTreeMap<RawFd, Fd>,
+    next_fd: RawFd,
+    crash_in: BTreeMap<usize, (u32, u64)>,
+    crashed: BTreeSet<usize>,
+    rng: Rng,
+    faults: FsFaults,
+    /// A hard error was injected on this replica since the last reset.
+    hard_error: BTreeSet<usize>,
+    counters: BTreeMap<&'static str, u64>,
+    mutating_calls: BTreeMap<usize, u64>,
+    in_commit_window: BTreeSet<usize>,
+}
+
+pub struct SimFs {
+    inner: RefCell<Inner>,
+}
+
+impl SimFs {
+    pub fn new(seed: u64, faults: FsFaults) -> Self {
+        Self {
+            inner: RefCell::new(Inner {
+                dirs: BTreeMap::new(),
+                files: Vec::new(),
+                fds: BTreeMap::new(),
+                next_fd: FD_BASE,
+                crash_in: BTreeMap::new(),
+                crashed: BTreeSet::new(),
+                rng: Rng::derive(seed, "disk"),
+                faults,
+                hard_error: BTreeSet::new(),
+                counters: BTreeMap::new(),
+                mutating_calls: BTreeMap::new(),
+                in_commit_window: BTreeSet::new(),
+            }),
+        }
+    }
+
+    pub fn arm_crash(&self, rep: usize, after_calls: u32, choices: u64) {
+        self.inner.borrow_mut().crash_in.insert(rep, (after_calls, choices));
+    }
+
+    pub fn disarm(&self, rep: usize) {
+        self.inner.borrow_mut().crash_in.remove(&rep);
+    }
+
+    pub fn take_hard_error(&self, rep: usize) -> bool {
+        self.inner.borrow_mut().hard_error.remove(&rep)
+    }
+
+    pub fn is_crashed(&self, rep: usize) -> bool {
+        self.inner.borrow().crashed.contains(&rep)
+    }
+
+    pub fn set_commit_window(&self, rep: usize, on: bool) {
+        let mut i = self.inner.borrow_mut();
+        if on {
+            i.in_commit_window.insert(rep);
+        } else {
+            i.in_commit_window.remove(&rep);
+        }
+    }
+
+    pub fn counters(&self) -> BTreeMap<&'static str, u64> {
+        self.inner.borrow().counters.clone()
+    }
+
+    pub fn mutating_calls(&self, rep: usize) -> u64 {
+        self.inner.borrow().mutating_calls.get(&rep).copied().unwrap_or(0)
+    }
+
+    /// Forget everything a crashed replica's process held; files keep their post-crash image.
+    pub fn restart(&self, rep: usize) {
+        let mut i = self.inner.borrow_mut();
+        i.crashed.remove(&rep);
+        i.crash_in.remove(&rep);
+        i.hard_error.remove(&rep);
+    }
+
+    pub fn remove_all_files(&self, rep: usize) {
+        let mut i = self.inner.borrow_mut();
+        i.dirs.insert(rep, BTreeMap::new());
+    }
+
+    /// Flip one byte inside the stored image of the replica's (first) file.
+    pub fn flip_byte(&self, rep: usize, offset: u64, mask: u8) -> bool {
+        let mut i = self.inner.borrow_mut();
+        let Some(f) = i.dirs.get(&rep).and_then(|d| d.values().next().copied()) else { return false };
+        let fs = &mut i.files[f];
+        let o = offset as usize;
+        if o < fs.data.len() && o < fs.durable.len() {
+            fs.data[o] ^= mask;
+            fs.durable[o] ^= mask;
+            true
+        } else {
+            false
+        }
+    }
+}
+
+fn bump(i: &mut Inner, k: &'static str) {
+    *i.counters.entry(k).or_insert(0) += 1;
+}
+
+impl Inner {
+    fn file_of(&self, fd: RawFd) -> Option<(usize, usize)> {
+        match self.fds.get(&fd) {
+            Some(Fd::File { file, rep }) => Some((*file, *rep)),
+            _ => None,
+        }
+    }
+
+    /// Apply the crash rule to every file of `rep`, then invalidate its descriptors.
+    fn crash(&mut self, rep: usize, choices: u64) {
+        let mut rng = Rng::new(choices ^ 0xC4A5_11ED);
+        let files: Vec<usize> = self.dirs.get(&rep).map(|d| d.values().copied().collect()).unwrap_or_default();
+        let in_commit = self.in_commit_window.contains(&rep);
+        let mut partial = false;
+        for f in files {
+            let fs = &mut self.files[f];
+            let mut base = fs.durable.clone();
+            let mut len = fs.durable_len;
+            if fs.len > fs.durable_len && rng.chance(1, 2) {
+                len = fs.len;
+            }
+            let mut kept = 0;
+            let mut lost = 0;
+            let pending = std::mem::take(&mut fs.pending);
+            for (off, data) in pending {
+                let mut pos = 0usize;
+                while pos < data.len() {
+                    let abs = off as usize + pos;
+                    let sector_end = (abs / SECTOR + 1) * SECTOR;
+                    let n = (sector_end - abs).min(data.len() - pos);
+                    let choice = rng.below(10);
+                    let take = match choice {
+                        0..=3 => n,
+                        4..=7 => 0,
+                        _ => rng.usize_below(n + 1),
+                    };
+                    if take > 0 && (abs as u64) < len {
+                        let take = take.min((len as usize).saturating_sub(abs));
+                        if base.len() < abs + take {
+                            base.resize(abs + take, 0);
+                        }
+                        base[abs..abs + take].copy_from_slice(&data[pos..pos + take]);
+                        kept += 1;
+                    } else {
+                        lost += 1;
+                    }
+                    pos += n;
+                }
+            }
+            if kept > 0 && lost > 0 {
+                partial = true;
+            }
+            if base.len() as u64 > len {
+                base.truncate(len as usize);
+            }
+            fs.data = base.clone();
+            fs.durable = base;
+            fs.len = len;
+            fs.durable_len = len;
+            fs.lock = None;
+        }
+        let stale: Vec<RawFd> = self
+            .fds
+            .iter()
+            .filter(|(_, v)| match v {
+                Fd::Dir(r) => *r == rep,
+                Fd::File { rep: r, .. } => *r == rep,
+            })
+            .map(|(k, _)| *k)
+            .collect();
+        for fd in stale {
+            self.fds.remove(&fd);
+        }
+        self.crashed.insert(rep);
+        self.crash_in.remove(&rep);
+        bump(self, "fault.crash");
+        if in_commit {
+            bump(self, "crash.in_commit");
+            if partial {
+                bump(self, "crash.in_commit_partial");
+            }
+        }
+        if partial {
+            bump(self, "crash.partial_survival");
+        }
+    }
+
+    /// Called at the start of every mutating call of `rep`. Returns true when the crash fires.
+    fn tick(&mut self, rep: usize) -> Option<u64> {
+        *self.mutating_calls.entry(rep).or_insert(0) += 1;
+        if let Some((n, choices)) = self.crash_in.get_mut(&rep) {
+            if *n == 0 {
+                return Some(*choices);
+            }
+            *n -= 1;
+        }
+        None
+    }
+}
+
+fn parse_rep(path: &[u8]) -> Option<usize> {
+    let s = std::str::from_utf8(path).ok()?;
+    let rest = s.strip_prefix("/simfs/")?;
+    rest.trim_end_matches('/').parse().ok()
+}
+
+impl SimSys for SimFs {
+    fn open(&self, path: &[u8], _oflag: c_int, _mode: u32) -> Intercept<RawFd> {
+        let rep = parse_rep(path)?;
+        let mut i = self.inner.borrow_mut();
+        i.dirs.entry(rep).or_default();
+        let fd = i.next_fd;
+        i.next_fd += 1;
+        i.fds.insert(fd, Fd::Dir(rep));
+        Some(Ok(fd))
+    }
+
+    fn openat(&self, dirfd: RawFd, path: &[u8], oflag: c_int, _mode: u32) -> Intercept<RawFd> {
+        if dirfd < FD_BASE {
+            return None;
+        }
+        let mut i = self.inner.borrow_mut();
+        let Some(Fd::Dir(rep)) = i.fds.get(&dirfd).copied() else {
+            return Some(Err(EBADF));
+        };
+        let existing = i.dirs.get(&rep).and_then(|d| d.get(path).copied());
+        let file = match (existing, oflag & O_CREAT != 0) {
+            (Some(_), true) if oflag & O_EXCL != 0 => return Some(Err(EEXIST)),
+            (Some(f), _) => f,
+            (None, false) => return Some(Err(ENOENT)),
+            (None, true) => {
+                if let Some(choices) = i.tick(rep) {
+                    i.crash(rep, choices);
+                    drop(i);
+                    panic!("{CRASH_PANIC} r{rep}");
+                }
+                i.files.push(FileState::default());
+                let f = i.files.len() - 1;
+                i.dirs.entry(rep).or_default().insert(path.to_vec(), f);
+                f
+            }
+        };
+        let fd = i.next_fd;
+        i.next_fd += 1;
+        i.fds.insert(fd, Fd::File { file, rep });
+        Some(Ok(fd))
+    }
+
+    fn close(&self, fd: RawFd) -> Intercept<()> {
+        if fd < FD_BASE {
+            return None;
+        }
+        let mut i = self.inner.borrow_mut();
+        if let Some(Fd::File { file, .. }) = i.fds.remove(&fd) {
+            if i.files[file].lock == Some(fd) {
+                i.files[file].lock = None;
+            }
+        }
+        Some(Ok(()))
+    }
+
+    fn flock(&self, fd: RawFd, _op: c_int) -> Intercept<()> {
+        if fd < FD_BASE {
+            return None;
+        }
+        let mut i = self.inner.borrow_mut();
+        let Some((file, _)) = i.file_of(fd) else { return Some(Err(EBADF)) };
+        match i.files[file].lock {
+            Some(holder) if holder != fd && i.fds.contains_key(&holder) => Some(Err(EWOULDBLOCK)),
+            _ => {
+                i.files[file].lock = Some(fd);
+                Some(Ok(()))
+            }
+        }
+    }
+
+    fn fsync(&self, fd: RawFd) -> Intercept<()> {
+        self.sync(fd)
+    }
+
+    fn fdatasync(&self, fd: RawFd) -> Intercept<()> {
+        self.sync(fd)
+    }
+
+    fn fallocate(&self, fd: RawFd, _mode: c_int, off: i64, len: i64) -> Intercept<()> {
+        if fd < FD_BASE {
+            return None;
+        }
+        let mut i = self.inner.borrow_mut();
+        let Some((file, rep)) = i.file_of(fd) else { return Some(Err(EBADF)) };
+        if let Some(choices) = i.tick(rep) {
+            i.crash(rep, choices);
+            drop(i);
+            panic!("{CRASH_PANIC} r{rep}");
+        }
+        let permille = i.faults.enospc_permille;
+        if permille > 0 && i.rng.below(1000) < permille {
+            bump(&mut i, "fault.enospc");
+            i.hard_error.insert(rep);
+            return Some(Err(ENOSPC));
+        }
+        let end = (off + len).max(0) as u64;
+        if end > i.files[file].len {
+            i.files[file].len = end;
+        }
+        Some(Ok(()))
+    }
+
+    fn pread(&self, fd: RawFd, buf: &mut [u8], off: i64) -> Intercept<usize> {
+        if fd < FD_BASE {
+            return None;
+        }
+        let mut i = self.inner.borrow_mut();
+        let Some((file, _)) = i.file_of(fd) else { return Some(Err(EBADF)) };
+        let (eintr, short) = (i.faults.eintr_pct, i.faults.short_pct);
+        if eintr > 0 && i.rng.below(100) < eintr {
+            bump(&mut i, "fault.eintr_read");
+            return Some(Err(EINTR));
+        }
+        let fs = &i.files[file];
+        let off = off.max(0) as u64;
+        if off >= fs.len {
+            return Some(Ok(0));
+        }
+        let mut n = buf.len().min((fs.len - off) as usize);
+        if short > 0 && n > 1 && i.rng.below(100) < short {
+            n = 1 + i.rng.usize_below(n - 1);
+            bump(&mut i, "fault.short_read");
+        }
+        let fs = &i.files[file];
+        for (k, b) in buf[..n].iter_mut().enumerate() {
+            *b = fs.data.get(off as usize + k).copied().unwrap_or(0);
+        }
+        Some(Ok(n))
+    }
+
+    fn pwrite(&self, fd: RawFd, buf: &[u8], off: i64) -> Intercept<usize> {
+        if fd < FD_BASE {
+            return None;
+        }
+        let mut i = self.inner.borrow_mut();
+        let Some((file, rep)) = i.file_of(fd) else { return Some(Err(EBADF)) };
+        let crash = i.tick(rep);
+        let (eintr, short, eio) = (i.faults.eintr_pct, i.faults.short_pct, i.faults.eio_permille);
+        if crash.is_none() {
+            if eintr > 0 && i.rng.below(100) < eintr {
+                bump(&mut i, "fault.eintr_write");
+                return Some(Err(EINTR));
+            }
+            if eio > 0 && i.rng.below(1000) < eio {
+                bump(&mut i, "fault.eio_write");
+                i.hard_error.insert(rep);
+                return Some(Err(EIO));
+            }
+        }
+        let mut n = buf.len();
+        if let Some(choices) = crash {
+            // The crash lands in the middle of this write: a prefix reaches the page cache.
+            n = Rng::new(choices).usize_below(buf.len() + 1);
+        } else if short > 0 && n > 1 && i.rng.below(100) < short {
+            n = 1 + i.rng.usize_below(n - 1);
+            bump(&mut i, "fault.short_write");
+        }
+        let off = off.max(0) as u64;
+        let end = off as usize + n;
+        let fs = &mut i.files[file];
+        if fs.data.len() < end {
+            fs.data.resize(end, 0);
+        }
+        fs.data[off as usize..end].copy_from_slice(&buf[..n]);
+        if end as u64 > fs.len {
+            fs.len = end as u64;
+        }
+        if n > 0 {
+            fs.pending.push((off, buf[..n].to_vec()));
+        }
+        if let Some(choices) = crash {
+            i.crash(rep, choices);
+            drop(i);
+            panic!("{CRASH_PANIC} r{rep}");
+        }
+        Some(Ok(n))
+    }
+
+    fn unlinkat(&self, dirfd: RawFd, path: &[u8], _flags: c_int) -> Intercept<()> {
+        if dirfd < FD_BASE {
+            return None;
+        }
+        let mut i = self.inner.borrow_mut();
+        let Some(Fd::Dir(rep)) = i.fds.get(&dirfd).copied() else {
+            return Some(Err(EBADF));
+        };
+        match i.dirs.entry(rep).or_default().remove(path) {
+            Some(_) => Some(Ok(())),
+            None => Some(Err(ENOENT)),
+        }
+    }
+
+    fn dup(&self, fd: RawFd) -> Intercept<RawFd> {
+        if fd < FD_BASE {
+            return None;
+        }
+        let mut i = self.inner.borrow_mut();
+        let Some(v) = i.fds.get(&fd).copied() else { return Some(Err(EBADF)) };
+        let nfd = i.next_fd;
+        i.next_fd += 1;
+        i.fds.insert(nfd, v);
+        Some(Ok(nfd))
+    }
+}
+
+impl SimFs {
+    fn sync(&self, fd: RawFd) -> Intercept<()> {
+        if fd < FD_BASE {
+            return None;
+        }
+        let mut i = self.inner.borrow_mut();
+        let Some((file, rep)) = i.file_of(fd) else { return Some(Err(EBADF)) };
+        if let Some(choices) = i.tick(rep) {
+            i.crash(rep, choices);
+            drop(i);
+            panic!("{CRASH_PANIC} r{rep}");
+        }
+        let eio = i.faults.eio_permille;
+        if eio > 0 && i.rng.below(1000) < eio {
+            // Linux semantics after a failed fsync: each pending sector may or may not have
+            // reached the disk and the error is not repeated. Model: apply a random subset.
+            bump(&mut i, "fault.eio_sync");
+            i.hard_error.insert(rep);
+            let mut rng = Rng::new(i.rng.next_u64());
+            let fs = &mut i.files[file];
+            let pending = std::mem::take(&mut fs.pending);
+            for (off, data) in pending {
+                if rng.chance(1, 2) {
+                    let end = off as usize + data.len();
+                    if fs.durable.len() < end {
+                        fs.durable.resize(end, 0);
+                    }
+                    fs.durable[off as usize..end].copy_from_slice(&data);
+                    fs.durable_len = fs.durable_len.max(end as u64);
+                }
+            }
+            return Some(Err(EIO));
+        }
+        let fs = &mut i.files[file];
+        let pending = std::mem::take(&mut fs.pending);
+        for (off, data) in pending {
+            let end = off as usize + data.len();
+            if fs.durable.len() < end {
+                fs.durable.resize(end, 0);
+            }
+            fs.durable[off as usize..end].copy_from_slice(&data);
+        }
+        fs.durable_len = fs.len;
+        bump(&mut i, "fs.sync");
+        Some(Ok(()))
+    }
+}
+
+// ------------------------------------------------------------------ replicas on the simulated disk
+
+pub fn dir_path(idx: usize) -> String {
+    format!("/simfs/{idx}")
+}
+
+pub fn new_file_rep(idx: usize, log: SharedLog, spill: SpillKind) -> AnyRep {
+    let mut p = dir_path(idx).into_bytes();
+    p.push(0);
+    let fm = FileManager::new(aranya_libc::Path::new(&p)).expect("simulated directory opens");
+    AnyRep::File(Rep::new(idx, LinearStorageProvider::new(fm), log, spill))
+}
+
+/// Harness-side memory of a file-backed replica across crashes.
+#[derive(Default, Clone)]
+pub struct DiskShadow {
+    /// Committed sets of commits attempted since the last success (may or may not be durable).
+    pub attempted: Vec<BTreeSet<CmdId>>,
+    /// At least one commit (or the creation) has returned successfully.
+    pub completed_any: bool,
 }
 
 impl Sim {
-    pub fn step_crash(&mut self, _r: usize, _at: u32, _choices: u64) {}
-    pub fn step_restart(&mut self, _r: usize) {}
+    pub fn fs_hard(&self, r: usize) -> bool {
+        self.fs.as_ref().is_some_and(|fs| fs.inner.borrow().hard_error.contains(&r))
+    }
+
+    pub fn is_file(&self, r: usize) -> bool {
+        self.cfg.file_backed.get(r).copied().unwrap_or(false)
+    }
+
+    /// Before a call that may move the committed root of file-backed replica `r`.
+    pub fn fs_attempt(&mut self, r: usize, would_be: BTreeSet<CmdId>) {
+        if self.is_file(r) {
+            self.disk[r].attempted.push(would_be);
+            if let Some(fs) = &self.fs {
+                fs.set_commit_window(r, true);
+            }
+        }
+    }
+
+    /// After that call returned (successfully or not).
+    pub fn fs_done(&mut self, r: usize, success: bool) {
+        if self.is_file(r) {
+            if let Some(fs) = &self.fs {
+                fs.set_commit_window(r, false);
+            }
+            if success {
+                self.disk[r].attempted.clear();
+                self.disk[r].completed_any = true;
+            }
+        }
+    }
+
+    /// A hard I/O error was injected during the last call: no property defines the replica's
+    /// in-memory state any more, so the process is restarted (narrow relaxation).
+    pub fn fs_after_call(&mut self, r: usize) {
+        let hard = self.fs.as_ref().is_some_and(|fs| fs.take_hard_error(r));
+        if hard && self.is_file(r) && !self.crashed[r] {
+            self.stats.bump("fault.restart_after_io_error");
+            let choices = vcommon::mix(self.cfg.seed, self.step_no as u64);
+            if let Some(fs) = &self.fs {
+                fs.arm_crash(r, 0, choices);
+            }
+            self.crash_process(r, choices);
+            self.step_restart(r);
+        }
+    }
+
+    pub fn step_crash(&mut self, r: usize, at: u32, choices: u64) {
+        if r >= self.reps.len() || !self.is_file(r) || self.crashed[r] || self.dead {
+            return;
+        }
+        if let Some(fs) = &self.fs {
+            if at == 0 {
+                // Crash right now, between two calls.
+                self.crash_process(r, choices);
+            } else {
+                fs.arm_crash(r, at - 1, choices);
+                self.note(&format!("crash armed r{r} in {at}"));
+            }
+        }
+    }
+
+    /// The simulated process of `r` dies: volatile disk state is resolved by the crash rule
+    /// (already done if the crash fired inside a system call), process state is dropped.
+    pub fn crash_process(&mut self, r: usize, choices: u64) {
+        let Some(fs) = self.fs.clone() else { return };
+        if !fs.is_crashed(r) {
+            fs.inner.borrow_mut().crash(r, choices);
+        }
+        fs.set_commit_window(r, false);
+        let (committed, has_graph) = with_rep!(&self.reps[r], rep => (rep.committed.clone(), rep.has_graph));
+        let log = Rc::clone(&self.log);
+        let mut zombie: Rep<MemSP> = Rep::new(r, MemSP::default(), log, SpillKind::Mem);
+        zombie.committed = committed;
+        zombie.has_graph = has_graph;
+        // Dropping the old replica closes its descriptors; they are already invalid.
+        self.reps[r] = AnyRep::Mem(zombie);
+        self.crashed[r] = true;
+        for s in &mut self.sess {
+            if s.a == r || s.b == r {
+                s.closed = true;
+                s.clean = false;
+            }
+        }
+        self.stats.bump("crashes");
+        self.note(&format!("crash r{r}"));
+    }
+
+    pub fn step_restart(&mut self, r: usize) {
+        if r >= self.reps.len() || !self.crashed[r] || self.dead {
+            return;
+        }
+        let Some(fs) = self.fs.clone() else { return };
+        fs.restart(r);
+        let (old_committed, had_graph) = with_rep!(&self.reps[r], rep => (rep.committed.clone(), rep.has_graph));
+        let spill = SpillKind::Faulty(Rc::clone(&self.spill_faults[r]));
+        self.reps[r] = new_file_rep(r, Rc::clone(&self.log), spill);
+        self.crashed[r] = false;
+        self.stats.bump("restarts");
+        let Some(gid) = self.gid else { return };
+        let mut candidates: Vec<BTreeSet<CmdId>> = Vec::new();
+        if had_graph {
+            candidates.push(old_committed.clone());
+        }
+        candidates.extend(self.disk[r].attempted.iter().cloned());
+        let completed = self.disk[r].completed_any;
+        let heads = with_rep!(&mut self.reps[r], rep => rep.heads(gid));
+        match heads {
+            Err(e) => {
+                if completed {
+                    self.violation("C15", "C15.unrecoverable", "reopen-failed-after-completed-commit", format!("reopening replica {r} after a crash failed ({e}) although {} commands had been committed successfully", old_committed.len()));
+                    return;
+                }
+                // No commit had completed: an error instead of a state is allowed. Start over.
+                self.stats.bump("crash.reopen_error_before_first_commit");
+                fs.remove_all_files(r);
+                self.reps[r] = new_file_rep(r, Rc::clone(&self.log), SpillKind::Faulty(Rc::clone(&self.spill_faults[r])));
+                with_rep!(&mut self.reps[r], rep => { rep.has_graph = false; rep.committed.clear(); });
+                self.disk[r] = DiskShadow::default();
+            }
+            Ok(h) => {
+                let ids: Vec<CmdId> = h.iter().map(|x| x.id).collect();
+                let hit = candidates.iter().position(|c| self.g.frontier(c) == ids);
+                match hit {
+                    Some(k) => {
+                        if k > 0 || !had_graph {
+                            self.stats.bump("crash.recovered_in_progress_commit");
+                        } else {
+                            self.stats.bump("crash.recovered_last_commit");
+                        }
+                        let set = candidates[k].clone();
+                        with_rep!(&mut self.reps[r], rep => { rep.has_graph = true; rep.committed = set; rep.counter = 0; });
+                        self.disk[r].attempted.clear();
+                        self.disk[r].completed_any = true;
+                        let keep = self.cfg.lookup_every;
+                        self.cfg.lookup_every = 1;
+                        self.check_committed(r, "after crash recovery");
+                        self.cfg.lookup_every = keep;
+                        // Any violation found by the state oracles right after recovery is a
+                        // crash-consistency violation.
+                        let step = self.step_no;
+                        for f in self.found.iter_mut().filter(|f| f.step == step && f.detail.starts_with("after crash recovery")) {
+                            f.class = format!("C15.recovered-state/{}", f.class);
+                            f.property = "C15".into();
+                        }
+                    }
+                    None => {
+                        self.violation(
+                            "C15",
+                            "C15.recovered-unknown-state",
+                            "recovered-state-is-no-commit",
+                            format!(
+                                "replica {r} reopened with heads {:?}, which is neither the last completed commit ({:?}) nor a commit in progress ({} candidates)",
+                                ids.iter().map(short).collect::<Vec<_>>(),
+                                self.g.frontier(&old_committed).iter().map(short).collect::<Vec<_>>(),
+                                candidates.len()
+                            ),
+                        );
+                    }
+                }
+            }
+        }
+    }
 }
